@@ -105,7 +105,9 @@ Foreign(r) == r.by = "att" /\ ~IsSub(r.o, AttZ)   \* sent by Z's server, owned o
 RefKinds == {"ref_ok", "ref_self", "ref_up", "ref_side", "ref_mixed", "ref_mixed2",
              "ref_class", "ref_offpath"}
 AnsKinds == {"honest", "ans_foreign", "cname_out", "cname_bare", "auth_foreign", "neg_foreign"}
-GlueKinds == {"in", "out", "loop", "local"}
+\* "out6" is "out" with the glue given as an AAAA record (the resolver checks the two families in separate
+\* branches; the model's address records have no family, so the abstract message is the same)
+GlueKinds == {"in", "out", "out6", "loop", "local"}
 Moves == {m \in [pre : PreSet, kind : KindSet, glue : GlueKinds \cup {"na"}] :
              (m.kind = "ref_ok") = (m.glue # "na")}
 Trigger(i, kind) == IF kind \in RefKinds THEN SubH(i) ELSE W(i)
@@ -126,7 +128,7 @@ ZContent(i, m) ==
        [] m.kind = "neg_foreign"  -> Msg("OK", <<>>, <<SOA(BankZ, "att")>>, <<PoisonV>>)
        [] m.kind = "ref_ok" ->
             CASE m.glue = "in"    -> Msg("OK", <<>>, <<goodNS>>, <<goodGlue>>)
-              [] m.glue = "out"   -> Msg("OK", <<>>, <<NS(SubZ(i), NsBank, "att")>>, <<A(NsBank, Trap, "att")>>)
+              [] m.glue \in {"out", "out6"} -> Msg("OK", <<>>, <<NS(SubZ(i), NsBank, "att")>>, <<A(NsBank, Trap, "att")>>)
               [] m.glue = "loop"  -> Msg("OK", <<>>, <<goodNS>>, <<A(SubNs(i), "a_loop", "att")>>)
               [] OTHER            -> Msg("OK", <<>>, <<goodNS>>, <<A(SubNs(i), "a_local", "att")>>)
        [] m.kind = "ref_self"     -> Msg("OK", <<>>, <<NS(AttZ, TrapHost, "att")>>, <<TrapGlue>>)
@@ -143,6 +145,9 @@ PreDgrams(pre, q) ==
   CASE pre = "wrongid"  -> <<Dgram(FALSE, q, Msg("OK", <<A(q, "spoof", "att")>>, <<>>, <<>>))>>
     [] pre = "wrongq"   -> <<Dgram(TRUE, Victim, Msg("OK", <<A(Victim, "spoof", "att")>>, <<>>, <<>>))>>
     [] pre = "wrongidq" -> <<Dgram(FALSE, Victim, Msg("OK", <<A(Victim, "spoof", "att")>>, <<>>, <<>>))>>
+    \* right ID, TWO questions: the victim's first, the outstanding one second.  The question section of a
+    \* reply is the outstanding question and nothing else, so this is one more wrong question ("Victim+q")
+    [] pre = "twoq"     -> <<Dgram(TRUE, <<"victim+q">>, Msg("OK", <<A(Victim, "spoof", "att")>>, <<>>, <<>>))>>
     [] OTHER            -> <<>>
 
 -----------------------------------------------------------------------------
